@@ -223,7 +223,8 @@ class PEP8Normalizer(ErrorFinder):
         if typ in _IMPORT_TYPES:
             simple_stmt = node.parent
             module = simple_stmt.parent
-            if module.type == 'file_input':
+            # Without a newline at the end of the file, there's no simple_stmt.
+            if module is not None and module.type == 'file_input':
                 index = module.children.index(simple_stmt)
                 for child in module.children[:index]:
                     children = [child]
